@@ -108,7 +108,7 @@ func RunC01(c *Ctx, r *Report) {
 	}
 	c.protectTotality(r, prefix)
 	ruleH := prefix + "mac-stateless"
-	r.Rule(ruleH, "the checksum of a message is a function of the message alone: every hash Write in calculateIntegrity is preceded by Reset on the same object on every path (the integrity objects are long-lived; Sum does not reset them)", 2)
+	r.Rule(ruleH, "the checksum of a message is a function of the message alone: every hash Write in calculateIntegrity is preceded by Reset on the same object on every path (the integrity objects are long-lived; Sum does not reset them)", 1)
 	c.hashTypestate(r, ruleH, a.calculateIntegrity)
 	// rule 1
 	c.keyDirectionRules(r, prefix, a)
